@@ -378,9 +378,9 @@ class SgzConverter(SgzReader):
                         outfile.write(new_block)
             # The version number is copied, so lay the footer out as readers of that version expect:
             # one unmasked array per stored header, each padded to its stride
-            self.read_variant_headers(include_padding=True)
             for k in self.stored_header_keys:
-                header_bytes = self.variant_headers[k].tobytes()
+                # Whole stored array, whatever header look-ups were made on this object before
+                header_bytes = self.get_tracefield_1d(k).tobytes()
                 outfile.write(header_bytes + bytes(self.padded_header_entry_length_bytes - len(header_bytes)))
 
 
